@@ -48,7 +48,7 @@ def v1_ctx(tok_name, cls, variant="std"):
     old = dict(gmx.V1_PRICE)
     gmx.V1_PRICE.update(pr)
     try:
-        data = pd.DataFrame([gmx.v1_row(usdg_class, aum_usd=aum + 10_000 * i, supply_glp=supply) for i in range(4)], index=minutes(4))
+        data = pd.DataFrame([gmx.v1_row(usdg_class, aum_usd=aum + 10_000 * i, supply_glp=supply + 371_009 * i * (1 if variant != "odd" else -1)) for i in range(4)], index=minutes(4))  # the GLP supply moves from bar to bar
     finally:
         gmx.V1_PRICE.update(old)
     # the pool's target weights are data too and change over time: from bar 2 on the traded token's weight is a quarter of what it was
@@ -202,6 +202,18 @@ def judge_v1(part, tok_name, cls, variant="std", seq_len=3):
         part.count("v1_reward_bars")
         if abs((F(m.reward) - r0) - want_r) > REL * max(want_r, Fraction(1, 10**30)):
             part.violation("C17|v1|reward", "reward of a bar != interval x 60 x held / supply", case, {"got": str(m.reward - dec(r0)), "rule": float(want_r)})
+        if ctx.bar + 1 < len(ctx.index):
+            # ... and in the bar after that, in which the holder does nothing and the pool's GLP supply is another one: the share is that bar's share
+            hold_snap = ctx.snapshot()
+            r1 = F(m.reward)
+            ctx.advance()
+            rr = ad.data.loc[ctx.index[ctx.bar - 1]]
+            want_rr = F(Decimal(rr["interval"])) * 60 * held / F(Decimal(rr["glp"]))
+            part.count("v1_reward_bars")
+            if abs((F(m.reward) - r1) - want_rr) > REL * max(want_rr, Fraction(1, 10**30)):
+                part.violation("C17|v1|reward|idle-bar", "in a bar without own trades (the pool's GLP supply has changed since the last one) the reward != interval x 60 x held / that bar's supply",
+                               case, {"got": str(m.reward - dec(r1)), "rule": float(want_rr), "supply": str(rr["glp"])})
+            ctx.restore(hold_snap)
         # ---- the next bar has other target weights: the fee rule must be evaluated with THAT bar's weights -------------------------------------
         row2 = ad.row()
         amt2 = dec(v1_amounts(gmx, row2, tok)["mid"]).quantize(Decimal(1).scaleb(-tok.decimal))
@@ -249,7 +261,7 @@ def judge_v1(part, tok_name, cls, variant="std", seq_len=3):
 
 # =========================================================== v2 ==============================================================
 V2_KINDS = ["balanced", "mild", "strong", "strong_short", "single-token"]
-V2_IMPACTS = ["0", "small", "large"]
+V2_IMPACTS = ["0", "small", "large", "no-impact-factors"]  # the last: a pool configured without swap price impact (both factors 0): every deposit has impact exactly 0
 V2_DEPOSITS = {  # (long USD, short USD)
     "long-small": (20_000, 0), "short-small": (0, 20_000), "both-small": (15_000, 9_000),
     "long-large": (3_000_000, 0), "short-large": (0, 3_000_000), "both-large": (2_000_000, 1_000_000),
@@ -263,7 +275,7 @@ def v2_ctx(kind, impact):
     from mc.worlds.kit import Ctx
 
     single = kind == "single-token"  # a pool whose long and short token are the same token (exists in GMX v2): both legs are paid in that token
-    data = gmx.v2_frame(3, "mild" if single else kind, impact, single)
+    data = gmx.v2_frame(3, "mild" if single else kind, "large" if impact == "no-impact-factors" else impact, single)
     m = gmx.make_v2(data, single_token=single)
     if single:
         import pandas as pd
@@ -279,6 +291,9 @@ def v2_ctx(kind, impact):
     if impact == "small":
         gmx.set_v2_fees(m, dep_pos=0.0004, dep_neg=0.0009, wd_pos=0.0011, wd_neg=0.0025)
         gmx.set_v2_impact(m, pos=6e-10, neg=3e-10)  # configured the wrong way round: the protocol caps the positive factor at the negative one
+    elif impact == "no-impact-factors":
+        gmx.set_v2_fees(m)
+        gmx.set_v2_impact(m, pos=0.0, neg=0.0)
     else:
         gmx.set_v2_fees(m)
         gmx.set_v2_impact(m)
@@ -421,8 +436,8 @@ def main(run: Run):
         "evaluations": c.get("v1_fee_evaluations", 0) + c.get("v1_buys", 0) + c.get("v1_sells", 0) + c.get("v2_deposits", 0) + c.get("v2_withdrawals", 0),
         "distinct_nontrivial": c.get("v1_buys", 0) + c.get("v2_deposits", 0),
         "rule": "v1: price / AUM variants x 3 tokens (18 / 18 / 6 decimals) x 5 USDG classes relative to the target x 4 amounts (tiny, a tenth of the gap, twice the gap = crossing, "
-                "three targets) x {buy; sell all / half; over-sell; second purchase with another token; bar advance for rewards} plus all same-token buy / sell sequences up to the bound closed by a full sale; v2: 4 pool shapes x 3 impact "
-                "pools x 10 deposit shapes x {withdraw part, all, over; balance}",
+                "three targets) x {buy; sell all / half; over-sell; second purchase with another token; bar advance for rewards} plus all same-token buy / sell sequences up to the bound closed by a full sale; v2: 5 pool shapes x (3 impact pools + a pool without impact factors) "
+                " x 10 deposit shapes x {withdraw part, all, over; balance}",
         "v1_round_trips": c.get("v1_round_trips", 0), "v1_sequences": c.get("v1_sequences", 0), "v2_round_trips_judged": c.get("v2_round_trips_judged", 0),
         "v2_round_trips_with_protocol_impact_above_fees": c.get("v2_round_trips_with_protocol_impact_above_fees", 0),
         "v2_positive_impact": c.get("v2_positive_impact", 0),
